@@ -3,21 +3,25 @@
     [ZBDDOp::Restrict] entries of the apply cache are keyed by the operand
     edges AND the number of levels of the manager (oxidd-rules-zbdd/src/apply_rec.rs
     [restrict]: [get_extended] / [add_extended] with [manager.num_levels()] as
-    numeric operand): the restriction by a literal cube depends on the number
-    of levels (through the cube's Base terminal and the tautology chain), and
-    [add_vars] does not clear the apply cache.  The per-operation model
-    DD/ZbddBool.v looks Restrict entries up under [[f; vars]], [[]]; the state
-    machine runs it on the cache SEEN THROUGH [zcgetN n] / [zcaddN n] ([n] = the
-    current number of levels), which append [n] to the numeric operands of the
-    Restrict code and are the identity on every other code.
+    numeric operand, /repo f8637cd): the restriction by a literal cube depends
+    on the number of levels (through the cube's Base terminal and the tautology
+    chain), and [add_vars] does not clear the apply cache.  The per-operation
+    model DD/ZbddBool.v [zrestrict] has this key ([[f; vars]], [[nlevels s]]); the
+    state machine runs it on the plain cache.
 
-    - [zlossyN]: the view of a lossy cache is lossy;
-    - [z*_pres]: whatever property of the cache is preserved by every
-      insertion is preserved by every algorithm (they only insert);
+    - [z*_nlevels]: [restrict] does not change the number of levels;
+    - [z*_pres]: whatever property of the cache is preserved by every insertion
+      the algorithms of a manager with [N0] levels can make (a Restrict entry is
+      keyed with [[N0]]) is preserved by every algorithm (they only insert);
     - [znofuture n c]: no Restrict entry is keyed with a number of levels above
-      [n] - preserved by insertions made through the view at [n], by clearing,
-      and by [add_vars] (the number of levels only grows), so an entry keyed
-      with the number of levels after [add_vars] was inserted at that number. *)
+      [n] - preserved by the insertions of a manager with [n] levels, by
+      clearing, and by [add_vars] (the number of levels only grows), so an entry
+      keyed with the number of levels after [add_vars] was inserted at that number;
+    - the view [zcgetN n] / [zcaddN n] (Mgr/HistoryZ.v) that appends [n] to the
+      numeric operands of the Restrict code: [zlossyN] (the view of a lossy cache
+      is lossy), [zrestrict_view]: [restrict] as it was before f8637cd
+      ([zrestrict_unkeyed]) run on the cache seen through the view at the current
+      number of levels IS the model [zrestrict] on the plain cache. *)
 
 From Coq Require Import List NArith PArith Bool Arith Lia FMapPositive.
 From OxiVerif Require Import DD.Table DD.TableProofs DD.Sem DD.Build DD.BuildProofs DD.Apply DD.FamSpec
@@ -48,38 +52,27 @@ Qed.
 Definition znofuture (n : nat) (c : C) : Prop :=
   forall a m n' r, cget c zcode_restrict a (m ++ [n']) = Some r -> n' <= n.
 
-Lemma znofuture_add : forall n c k a m r, znofuture n c -> znofuture n (zcaddN C cadd n c k a m r).
+(** an insertion a manager with [n] levels makes: a Restrict entry carries [[n]] *)
+Lemma znofuture_add : forall n c k a m r, (k = zcode_restrict -> m = [n]) ->
+  znofuture n c -> znofuture n (cadd c k a m r).
 Proof.
-  intros n c k a m r Hf a' m' n' r' E. unfold zcaddN in E.
+  intros n c k a m r Hk Hf a' m' n' r' E.
   destruct (Hlossy _ _ _ _ _ _ _ _ _ E) as [[Ek [_ [Em _]]]|E']; [|apply (Hf a' m' n' r' E')].
-  unfold zkeyN in Em. rewrite <- Ek in Em. simpl in Em. apply app_inj_tail in Em. lia.
+  rewrite (Hk (eq_sym Ek)) in Em. change [n] with ([] ++ [n]) in Em. apply app_inj_tail in Em.
+  destruct Em as [_ ->]. apply le_n.
 Qed.
 
 Lemma znofuture_mono : forall n n' c, n <= n' -> znofuture n c -> znofuture n' c.
 Proof. intros n n' c Hn Hf a m k r E. specialize (Hf a m k r E). lia. Qed.
 
-(** what the view at [n'] serves of a cache without future keys, [n <= n'] *)
-Lemma zcgetN_later : forall n n' c k a m r, znofuture n c -> n <= n' ->
-  zcgetN C cget n' c k a m = Some r ->
-  zcgetN C cget n c k a m = Some r /\ (k = zcode_restrict -> n' = n).
-Proof.
-  intros n n' c k a m r Hf Hn E. unfold zcgetN, zkeyN in *.
-  destruct (N.eqb_spec k zcode_restrict) as [->|Hne].
-  - pose proof (Hf a m n' r E). assert (n' = n) by lia. subst n'. auto.
-  - split; [exact E | intros Hx; contradiction].
-Qed.
+(** a cache without future keys holds no Restrict entry keyed with [n' > n] *)
+Lemma znofuture_later : forall n n' c a r, znofuture n c -> n <= n' ->
+  cget c zcode_restrict a [n'] = Some r -> n' = n.
+Proof. intros n n' c a r Hf Hn E. pose proof (Hf a [] n' r E). lia. Qed.
 
 End View.
 
-(** ** The algorithms only insert *)
-
-Section Pres.
-Variable gt : ref -> ref -> bool.
-Variable C : Type.
-Variable cget : C -> N -> list ref -> list nat -> option ref.
-Variable cadd : C -> N -> list ref -> list nat -> ref -> C.
-Variable P : C -> Prop.
-Hypothesis HP : forall c k a m r, P c -> P (cadd c k a m r).
+(** ** [restrict] keeps the number of levels *)
 
 Ltac pres_split E :=
   repeat match type of E with
@@ -95,6 +88,74 @@ Ltac pres_all :=
   | E : (if ?x then _ else _) = Some _ |- _ => destruct x eqn:?
   end.
 
+Lemma goi_nlevels : forall s lvl ch s' e, get_or_insert s lvl ch = (s', e) -> nlevels s' = nlevels s.
+Proof.
+  intros s lvl ch s' e E. unfold get_or_insert in E. destruct (find_dup s lvl ch); inversion E; reflexivity.
+Qed.
+
+Lemma zmk_node_nlevels : forall s lvl hi lo s' r, zmk_node s lvl hi lo = (s', r) -> nlevels s' = nlevels s.
+Proof.
+  intros s lvl hi lo s' r Hm. unfold zmk_node in Hm. destruct (is_empty_b s hi); [inversion Hm; reflexivity|].
+  destruct (get_or_insert s lvl [E hi; E lo]) as [s1 e] eqn:Eg. inversion Hm; subst.
+  apply (goi_nlevels _ _ _ _ _ Eg).
+Qed.
+
+Lemma zdc_wrap_nlevels : forall cnt level s e s' r, zdc_wrap level cnt s e = (s', r) -> nlevels s' = nlevels s.
+Proof.
+  induction cnt as [|k IH]; intros level s e s' r Hw; simpl in Hw; [inversion Hw; reflexivity|].
+  destruct (get_or_insert s (level + k) [E e; E e]) as [s1 e1] eqn:Eg.
+  rewrite (IH _ _ _ _ _ Hw). apply (goi_nlevels _ _ _ _ _ Eg).
+Qed.
+
+Lemma zrestrict_base_nlevels : forall fuel s vars level s' r,
+  zrestrict_base fuel s vars level = Some (s', r) -> nlevels s' = nlevels s.
+Proof.
+  induction fuel as [|n IH]; intros s vars level s' r E; [discriminate|]. simpl in E.
+  pres_all;
+  repeat match goal with
+  | Hx : Some _ = Some _ |- _ => inversion Hx; subst; clear Hx
+  end;
+  repeat match goal with
+  | Hz : zrestrict_base n _ _ _ = Some _ |- _ => apply IH in Hz
+  | Hz : zdc_wrap _ _ _ _ = _ |- _ => apply zdc_wrap_nlevels in Hz
+  end; congruence.
+Qed.
+
+Section Levels.
+Variable C : Type.
+Variable cget : C -> N -> list ref -> list nat -> option ref.
+Variable cadd : C -> N -> list ref -> list nat -> ref -> C.
+
+Lemma zrestrict_nlevels : forall fuel s c f vars level s' c' r,
+  zrestrict C cget cadd fuel s c f vars level = Some (s', c', r) -> nlevels s' = nlevels s.
+Proof.
+  induction fuel as [|n IH]; intros s c f vars level s' c' r E; [discriminate|].
+  rewrite (zrestrict_S C cget cadd) in E. cbv zeta in E. unfold zmk_node1 in E.
+  pres_all;
+  repeat match goal with
+  | Hx : Some _ = Some _ |- _ => inversion Hx; subst; clear Hx
+  end;
+  repeat match goal with
+  | Hz : zrestrict _ _ _ n _ _ _ _ _ = Some _ |- _ => apply IH in Hz
+  | Hz : zrestrict_base _ _ _ _ = Some _ |- _ => apply zrestrict_base_nlevels in Hz
+  | Hz : zmk_node _ _ _ _ = _ |- _ => apply zmk_node_nlevels in Hz
+  end; congruence.
+Qed.
+
+End Levels.
+
+(** ** The algorithms only insert *)
+
+Section Pres.
+Variable gt : ref -> ref -> bool.
+Variable C : Type.
+Variable cget : C -> N -> list ref -> list nat -> option ref.
+Variable cadd : C -> N -> list ref -> list nat -> ref -> C.
+Variable P : C -> Prop.
+(** the insertions of a manager with [N0] levels *)
+Variable N0 : nat.
+Hypothesis HP : forall c k a m r, (k = zcode_restrict -> m = [N0]) -> P c -> P (cadd c k a m r).
+
 Lemma zapply_pres : forall op fuel s c f g s' c' r,
   zapply gt C cget cadd fuel s c op f g = Some (s', c', r) -> P c -> P c'.
 Proof.
@@ -108,7 +169,7 @@ Proof.
   match type of E with
   | match ?res with _ => _ end = _ => destruct res as [[[s1 c1] h]|] eqn:Er; [|discriminate]
   end.
-  inversion E; subst s' c' r. clear E. apply HP.
+  inversion E; subst s' c' r. clear E. apply HP; [intros Hk; destruct op; discriminate Hk|].
   pres_split Er;
   repeat match goal with
   | Hz : zapply _ _ _ _ n _ _ _ _ _ = Some _ |- _ => apply IH in Hz; [|assumption]
@@ -139,7 +200,7 @@ Proof.
   match type of E with
   | match ?res with _ => _ end = _ => destruct res as [[[s1 c1] h]|] eqn:Er; [|discriminate]
   end.
-  inversion E; subst s' c' r. clear E. apply HP.
+  inversion E; subst s' c' r. clear E. apply HP; [discriminate|].
   pres_split Er;
   repeat match goal with
   | Hz : zsymm _ _ _ _ n _ _ _ _ = Some _ |- _ => apply IH in Hz; [|assumption]
@@ -165,7 +226,8 @@ Proof.
       destruct (zsubset C cget cadd n s c op (eref fhi) var vl) as [[[s1 c1] hi]|] eqn:E1; [|discriminate].
       destruct (zsubset C cget cadd n s1 c1 op (eref flo) var vl) as [[[s2 c2] lo]|] eqn:E2; [|discriminate].
       destruct (zmk_node s2 (nstored nd) hi lo) as [s3 h]. inversion E; subst.
-      apply HP. apply (IH _ _ _ _ _ _ E2). apply (IH _ _ _ _ _ _ E1). exact Hc.
+      apply HP; [intros Hk; destruct op; discriminate Hk|].
+      apply (IH _ _ _ _ _ _ E2). apply (IH _ _ _ _ _ _ E1). exact Hc.
     + unfold zsubset_below in E. destruct op, (zempty s); try discriminate;
         try (inversion E; subst; exact Hc).
       destruct (zmk_node s vl f r0). inversion E; subst. exact Hc.
@@ -200,7 +262,7 @@ Proof.
   match type of E with
   | match ?res with _ => _ end = _ => destruct res as [[[s1 c1] r1]|] eqn:Er; [|discriminate]
   end.
-  inversion E; subst s' c' r. clear E. apply HP.
+  inversion E; subst s' c' r. clear E. apply HP; [discriminate|].
   pres_all;
   repeat match goal with
   | Hx : Some _ = Some _ |- _ => inversion Hx; subst; clear Hx
@@ -237,23 +299,129 @@ Proof.
   apply (zapply_not_pres _ _ _ _ _ _ _ E Hc).
 Qed.
 
-Lemma zrestrict_pres : forall fuel s c f vars level s' c' r,
+Lemma zrestrict_pres : forall fuel s c f vars level s' c' r, nlevels s = N0 ->
   zrestrict C cget cadd fuel s c f vars level = Some (s', c', r) -> P c -> P c'.
 Proof.
-  induction fuel as [|n IH]; intros s c f vars level s' c' r E Hc; [discriminate|].
+  induction fuel as [|n IH]; intros s c f vars level s' c' r Hn E Hc; [discriminate|].
   rewrite (zrestrict_S C cget cadd) in E. cbv zeta in E.
   pres_all;
   repeat match goal with
   | Hx : Some _ = Some _ |- _ => inversion Hx; subst; clear Hx
   end;
   repeat match goal with
-  | Hz : zrestrict _ _ _ n _ _ _ _ _ = Some _ |- _ => apply IH in Hz; [|assumption]
+  | Hz : zrestrict _ _ _ n ?s0 _ _ _ _ = Some (?s1, _, _) |- _ =>
+    lazymatch goal with
+    | _ : nlevels s1 = nlevels s0 |- _ => fail
+    | _ => pose proof (zrestrict_nlevels C cget cadd _ _ _ _ _ _ _ _ _ Hz)
+    end
   end;
-  try apply HP; assumption.
+  repeat match goal with
+  | Hz : zrestrict _ _ _ n _ _ _ _ _ = Some _ |- _ => apply IH in Hz; [|congruence|assumption]
+  end;
+  try (apply HP; [intros _; reflexivity|]); assumption.
 Qed.
 
-Lemma zrestrict_edge_pres : forall fuel s c f vars s' c' r,
+Lemma zrestrict_edge_pres : forall fuel s c f vars s' c' r, nlevels s = N0 ->
   zrestrict_edge C cget cadd fuel s c f vars = Some (s', c', r) -> P c -> P c'.
-Proof. intros fuel s c f vars s' c' r E Hc. apply (zrestrict_pres _ _ _ _ _ _ _ _ _ E Hc). Qed.
+Proof. intros fuel s c f vars s' c' r Hn E Hc. apply (zrestrict_pres _ _ _ _ _ _ _ _ _ Hn E Hc). Qed.
 
 End Pres.
+
+(** ** The fix f8637cd, as a statement about the model: [restrict] as it was
+    ([zrestrict_unkeyed], Mgr/HistoryZ.v) on the cache seen through the view
+    that appends the current number of levels to the Restrict key is [restrict]
+    as it is ([zrestrict], DD/ZbddBool.v) on the plain cache *)
+
+Section ViewTie.
+Variable C : Type.
+Variable cget : C -> N -> list ref -> list nat -> option ref.
+Variable cadd : C -> N -> list ref -> list nat -> ref -> C.
+
+Lemma zrestrict_unkeyed_S : forall cg ca n s c f vars level,
+  zrestrict_unkeyed C cg ca (S n) s c f vars level =
+    match zget s f with
+    | None => None
+    | Some (ZT v) =>
+      if N.eqb v 0 then Some (s, c, f)
+      else
+        match zrestrict_base (S n) s vars level with
+        | Some (s1, r) => Some (s1, c, r)
+        | None => None
+        end
+    | Some (ZI fnd) =>
+      match zget s vars, nchildren fnd with
+      | Some vnode, [fhi; flo] =>
+        let flevel := nstored fnd in
+        match lcmp (vlevel vnode) (Some level) with
+        | Eq =>
+          match zkids vnode with
+          | None => None
+          | Some (vhi, vlo) =>
+            if negb (ref_eqb vhi vlo) then
+              if negb (Nat.eqb flevel level) then
+                match zempty s with Some e => Some (s, c, e) | None => None end
+              else
+                match zrestrict_unkeyed C cg ca n s c (eref fhi) vhi (S level) with
+                | None => None
+                | Some (s1, c1, child) =>
+                  let '(s2, r) := zmk_node1 s1 level child in Some (s2, c1, r)
+                end
+            else if negb (Nat.eqb flevel level) then zrestrict_unkeyed C cg ca n s c f vhi (S level)
+            else
+              match cg c zcode_restrict [f; vars] [] with
+              | Some r => Some (s, c, r)
+              | None =>
+                match zrestrict_unkeyed C cg ca n s c (eref fhi) vhi (S level) with
+                | None => None
+                | Some (s1, c1, hi) =>
+                  match zrestrict_unkeyed C cg ca n s1 c1 (eref flo) vhi (S level) with
+                  | None => None
+                  | Some (s2, c2, lo) =>
+                    let '(s3, r) := zmk_node s2 level hi lo in
+                    Some (s3, ca c2 zcode_restrict [f; vars] [] r, r)
+                  end
+                end
+              end
+          end
+        | _ =>
+          let sel := if Nat.eqb flevel level then eref flo else f in
+          match zrestrict_unkeyed C cg ca n s c sel vars (S level) with
+          | None => None
+          | Some (s1, c1, child) =>
+            let '(s2, r) := zmk_node1 s1 level child in Some (s2, c1, r)
+          end
+        end
+      | _, _ => None
+      end
+    end.
+Proof. reflexivity. Qed.
+
+Theorem zrestrict_view : forall fuel s c f vars level,
+  zrestrict_unkeyed C (zcgetN C cget (nlevels s)) (zcaddN C cadd (nlevels s)) fuel s c f vars level =
+  zrestrict C cget cadd fuel s c f vars level.
+Proof.
+  induction fuel as [|n IH]; intros s c f vars level; [reflexivity|].
+  rewrite (zrestrict_S C cget cadd), zrestrict_unkeyed_S.
+  destruct (zget s f) as [[v|fnd]|]; [reflexivity| |reflexivity].
+  destruct (zget s vars) as [vnode|]; [|reflexivity].
+  destruct (nchildren fnd) as [|fhi [|flo [|x rest]]]; try reflexivity.
+  cbv zeta.
+  destruct (lcmp (vlevel vnode) (Some level)); try (rewrite IH; reflexivity).
+  destruct (zkids vnode) as [[vhi vlo]|]; [|reflexivity].
+  destruct (negb (ref_eqb vhi vlo)); [rewrite IH; reflexivity|].
+  destruct (negb (Nat.eqb (nstored fnd) level)); [apply IH|].
+  change (zcgetN C cget (nlevels s) c zcode_restrict [f; vars] [])
+    with (cget c zcode_restrict [f; vars] [nlevels s]).
+  destruct (cget c zcode_restrict [f; vars] [nlevels s]); [reflexivity|].
+  rewrite IH.
+  destruct (zrestrict C cget cadd n s c (eref fhi) vhi (S level)) as [[[s1 c1] hi]|] eqn:E1; [|reflexivity].
+  rewrite <- (zrestrict_nlevels C cget cadd _ _ _ _ _ _ _ _ _ E1). rewrite IH.
+  reflexivity.
+Qed.
+
+Theorem zrestrict_edge_view : forall fuel s c f vars,
+  zrestrict_unkeyed C (zcgetN C cget (nlevels s)) (zcaddN C cadd (nlevels s)) fuel s c f vars 0 =
+  zrestrict_edge C cget cadd fuel s c f vars.
+Proof. intros. apply zrestrict_view. Qed.
+
+End ViewTie.
